@@ -43,6 +43,8 @@ def run(chk):
             ks = sorted(set(rng.sample(ks, 50) + [0, n - 1, n]))
         for k in ks:
             lines.append(f"(ana w{i}_{k} visit {C.hx(p)} {k})")
+    # a visitor whose output is not a monoid (default "0", combine a b = "(a+b)"): how results are folded, not only what is seen
+    lines += [f"(ana s{i} shape {C.hx(p)})" for i, p in enumerate(progs)]
     res, _ = suite.compare(chk, lines, "visit", project=lambda x: x, suite_name="VISIT")
     bad = 0
     for l in lines:
